@@ -72,31 +72,53 @@ func checkC14(c *Ctx) {
 	c.R.NotDecided = "equality of answers for arbitrary registrations and inputs (needs execution); wording of error messages"
 	c.R.Assumptions = []string{"the shared managers are deterministic functions of (registrations, request)"}
 
-	// ---- the map route
-	mapRoute := map[string]*ssa.Function{}
-	for _, es := range c.MapLiteralDispatch() {
-		isReqTable := false
+	// ---- the routes: every dispatch of request methods to handlers — a map literal from method names to functions, or
+	// a function comparing the request's method with string constants. The one serving most methods is the reference
+	// (the shared table of Streamable HTTP and legacy SSE); every other one (stdio's private routing) is compared with it.
+	type route struct {
+		name    string
+		where   *ssa.Function
+		targets map[string]*ssa.Function
+		pos     map[string]token.Pos
+	}
+	var routes []route
+	for fn, es := range c.MapLiteralDispatch() {
+		r := route{name: "the dispatch table built in " + fname(fn), where: fn, targets: map[string]*ssa.Function{}, pos: map[string]token.Pos{}}
 		for _, e := range es {
-			if e.Method == "tools/call" {
-				isReqTable = true
+			r.targets[e.Method] = e.Target
+			r.pos[e.Method] = e.Pos
+		}
+		if _, ok := r.targets["tools/call"]; ok && !clientSide(c, fn) {
+			routes = append(routes, r)
+		}
+	}
+	firstLibCall := func(b *ssa.BasicBlock) *ssa.Function {
+		seen := map[*ssa.BasicBlock]bool{}
+		for cur := b; cur != nil && !seen[cur]; {
+			seen[cur] = true
+			for _, in := range cur.Instrs {
+				if call, ok := in.(*ssa.Call); ok {
+					if sc := ir.StaticCallee(call); sc != nil && c.P.IsLib(sc) {
+						if strings.Contains(strings.ToLower(sc.Name()), "debugf") {
+							continue
+						}
+						return sc
+					}
+				}
+			}
+			if len(cur.Succs) == 1 {
+				cur = cur.Succs[0]
+			} else {
+				cur = nil
 			}
 		}
-		if !isReqTable {
+		return nil
+	}
+	for _, fn := range c.P.LibFns {
+		if clientSide(c, fn) {
 			continue
 		}
-		for _, e := range es {
-			mapRoute[e.Method] = e.Target
-		}
-	}
-	// ---- the switch route: function comparing a Method field with >= 5 distinct string constants
-	type swCase struct {
-		block *ssa.BasicBlock
-		ifi   *ssa.If
-	}
-	var swFn *ssa.Function
-	swCases := map[string]swCase{}
-	for _, fn := range c.P.LibFns {
-		cases := map[string]swCase{}
+		r := route{name: "the method switch in " + fname(fn), where: fn, targets: map[string]*ssa.Function{}, pos: map[string]token.Pos{}}
 		for _, b := range fn.Blocks {
 			if len(b.Instrs) == 0 {
 				continue
@@ -119,64 +141,55 @@ func checkC14(c *Ctx) {
 			if cs == "" || !derivesFromMethod(other) {
 				continue
 			}
-			cases[cs] = swCase{b.Succs[0], ifi}
+			r.targets[cs] = firstLibCall(b.Succs[0])
+			r.pos[cs] = b.Succs[0].Instrs[0].Pos()
 		}
-		if len(cases) >= 5 && !clientSide(c, fn) {
-			if _, isReq := cases["tools/call"]; isReq {
-				swFn, swCases = fn, cases
-			}
+		if _, ok := r.targets["tools/call"]; ok && len(r.targets) >= 5 {
+			routes = append(routes, r)
 		}
 	}
-	if len(mapRoute) < 8 || swFn == nil {
-		c.R.Break("dispatch routes not discovered (map route %d methods, switch route found=%v)", len(mapRoute), swFn != nil)
+	sort.Slice(routes, func(i, j int) bool {
+		if len(routes[i].targets) != len(routes[j].targets) {
+			return len(routes[i].targets) > len(routes[j].targets)
+		}
+		return routes[i].name < routes[j].name
+	})
+	if len(routes) < 2 {
+		c.R.Break("dispatch routes not discovered (%d found; expected the shared table and stdio's own routing)", len(routes))
 		return
 	}
-	c.R.Extra["map_route_methods"] = len(mapRoute)
-	c.R.Extra["switch_route"] = fname(swFn)
-
-	switchTarget := func(b *ssa.BasicBlock) *ssa.Function {
-		// the first library call in the case's block chain
-		seen := map[*ssa.BasicBlock]bool{}
-		for cur := b; cur != nil && !seen[cur]; {
-			seen[cur] = true
-			for _, in := range cur.Instrs {
-				if call, ok := in.(*ssa.Call); ok {
-					if sc := ir.StaticCallee(call); sc != nil && c.P.IsLib(sc) {
-						if strings.Contains(strings.ToLower(sc.Name()), "debugf") {
-							continue
-						}
-						return sc
-					}
-				}
+	ref := routes[0]
+	mapRoute := ref.targets
+	c.R.Extra["routes"] = func() []string {
+		var out []string
+		for _, r := range routes {
+			out = append(out, sprintf("%s (%d methods)", r.name, len(r.targets)))
+		}
+		return out
+	}()
+	var swFn *ssa.Function
+	for _, r := range routes[1:] {
+		swFn = r.where
+		for _, m := range commonMethods {
+			mt, inRef := ref.targets[m]
+			st, inOther := r.targets[m]
+			c.R.Check(inRef, "R-method-set", m+" in "+ref.name, "", "served by the reference route", sprintf("method %q is not served by %s", m, ref.name))
+			c.R.Check(inOther, "R-method-set", m+" in "+r.name, "", "served by this route too", sprintf("method %q is not served by %s", m, r.name))
+			if !inRef || !inOther {
+				continue
 			}
-			if len(cur.Succs) == 1 {
-				cur = cur.Succs[0]
-			} else {
-				cur = nil
+			a := forwardTarget(c, mt, 0)
+			b := forwardTarget(c, st, 0)
+			if m == "ping" {
+				okA, okB := emptyObjectResult(a), emptyObjectResult(b)
+				c.R.Check(okA && okB, "R-ping", "ping results ("+r.name+")", c.Pos(r.pos[m]), "both routes answer ping with a value that encodes to {}",
+					sprintf("the ping results differ: %s encodes to {}: %v; %s encodes to {}: %v", fnameOrNil(a), okA, fnameOrNil(b), okB))
+				continue
 			}
+			same := a != nil && a == b
+			c.R.Check(same, "R-same-callee", m+" ("+r.name+")", c.Pos(r.pos[m]), "both routes end in "+fnameOrNil(a),
+				sprintf("method %q is served by %s through %s but by %s through %s", m, fnameOrNil(a), ref.name, fnameOrNil(b), r.name))
 		}
-		return nil
-	}
-
-	for _, m := range commonMethods {
-		mt, inMap := mapRoute[m]
-		sc, inSw := swCases[m]
-		c.R.Check(inMap, "R-method-set", m+" in the dispatch table", "", "served by Streamable HTTP / legacy SSE", sprintf("method %q is not a key of the shared dispatch table", m))
-		c.R.Check(inSw, "R-method-set", m+" in the stdio switch", "", "served by stdio", sprintf("method %q is not a case of %s", m, fname(swFn)))
-		if !inMap || !inSw {
-			continue
-		}
-		a := forwardTarget(c, mt, 0)
-		b := forwardTarget(c, switchTarget(sc.block), 0)
-		if m == "ping" {
-			okA, okB := emptyObjectResult(a), emptyObjectResult(b)
-			c.R.Check(okA && okB, "R-ping", "ping results", c.Pos(a.Pos()), "both routes answer ping with a value that encodes to {}",
-				sprintf("the ping results differ: table route %s encodes to {}: %v; stdio route %s encodes to {}: %v", fname(a), okA, fname(b), okB))
-			continue
-		}
-		same := a != nil && a == b
-		c.R.Check(same, "R-same-callee", m, c.Pos(sc.block.Instrs[0].Pos()), "both routes end in "+fname(a),
-			sprintf("method %q is served by %s on Streamable HTTP / legacy SSE but by %s on stdio", m, fname(a), fnameOrNil(b)))
 	}
 	c.R.Min("R-method-set", 16)
 	c.R.Min("R-same-callee", 7)
